@@ -142,7 +142,7 @@ func (r *Reader) decodeScanLine() {
 	if r.K < 0 {
 		r.decodeG4ScanLine()
 	} else if r.K == 0 {
-		r.decodeG3ScanLine1D()
+		r.decodeG3ScanLine1D(0)
 	} else {
 		r.decodeG3ScanLine2D()
 	}
@@ -170,14 +170,13 @@ func (r *Reader) decodeG4ScanLine() {
 }
 
 // decodeG3ScanLine1D decodes a single Group 3 1D scanline
-// and stores the result in r.line.
-func (r *Reader) decodeG3ScanLine1D() {
+// and stores the result in r.line.  numEOL is the number of EOL codes
+// the caller has skipped in front of the line.
+func (r *Reader) decodeG3ScanLine1D(numEOL int) {
 	r.line = r.line[:0]
 
 	xpos := 0
 	isWhite := true
-
-	numEOL := 0
 
 	// a make-up code is always followed by a terminating code, even when the
 	// make-up code alone completes the row
@@ -195,6 +194,11 @@ func (r *Reader) decodeG3ScanLine1D() {
 		case S_EOL:
 			r.waitForOne()
 			if xpos == 0 {
+				if r.K > 0 {
+					// in the two-dimensional scheme every EOL, including
+					// those of the RTC, is followed by a tag bit
+					r.consumeBits(1)
+				}
 				numEOL++
 				if !r.IgnoreEndOfBlock && numEOL >= 6 {
 					r.err = io.EOF
@@ -213,14 +217,16 @@ func (r *Reader) decodeG3ScanLine1D() {
 
 // decodeG3ScanLine2D decodes a Group 3 2D scanline (K > 0).
 func (r *Reader) decodeG3ScanLine2D() {
+	numEOL := 0
 	for r.err == nil && r.peekBits(11) == 0 {
 		r.consumeBits(11)
 		r.waitForOne() // allow for fill bits
+		numEOL++
 	}
 
 	tp := r.readBits(1)
 	if tp == 1 { // 1D mode
-		r.decodeG3ScanLine1D()
+		r.decodeG3ScanLine1D(numEOL)
 	} else { // 2D mode
 		r.decode2D()
 	}
